@@ -34,8 +34,8 @@ class Transform(data_input.DataInputAbstract, Numbered_MCNP_Object):
         self._is_main_to_aux = True
         super().__init__(input)
         if input:
-            words = self._tree["data"]
-            i = 0
+            # the entries after shortcut expansion (one per value), not the syntax nodes
+            words = list(self._tree["data"])
             if len(words) < 3:
                 raise MalformedInputError(input, f"Not enough entries were provided")
             modifier = self._classifier.modifier
@@ -47,21 +47,11 @@ class Transform(data_input.DataInputAbstract, Numbered_MCNP_Object):
             self._old_number = copy.deepcopy(self._number)
 
             # parse displacement
-            values = []
-            for j, word in enumerate(words):
-                values.append(word.value)
-                i += 1
-                if j >= 2:
-                    break
-            self._displacement_vector = np.array(values)
+            self._displacement_vector = np.array([word.value for word in words[:3]])
 
             # parse rotation
-            values = []
-            for j, word in enumerate(words.nodes[i:]):
-                values.append(word.value)
-                i += 1
-                if j >= 8:
-                    break
+            values = [word.value for word in words[3:12]]
+            i = 3 + len(values)
             self._rotation_matrix = np.array(values)
 
             self._is_main_to_aux = True
